@@ -6,6 +6,7 @@ import TephraModel.Fam.Run
 import TephraModel.Spec.Peg
 import TephraModel.Spec.Ctx
 import TephraModel.Spec.Bracket
+import TephraModel.Spec.Canon
 
 namespace Tephra.Fam.Oracles
 open Tephra Tephra.Wire Tephra.Fam.RunF
@@ -81,7 +82,7 @@ def pegOracle (prop : String) (c : Case) (impl : String) (modelObs : String) : S
         (if normalizeSp iv == ev then [] else [s!"value {iv} expected {ev}"]) ++
         (if rest == showView s1 then [] else [s!"remaining stream {rest} expected {showView s1}"]) ++
         (if f == (if c.filter.isSome then "1" else "0") then [] else ["filter not restored"])
-      if problems.isEmpty then "ok" else s!"FAIL {prop}: " ++ ", ".intercalate problems
+      if problems.isEmpty then "ok" else s!"FAIL {prop}: " ++ " && ".intercalate problems
 
 /-! ### parsing the implementation's observation -/
 
@@ -128,7 +129,7 @@ def ctxOracle (c : Case) (impl : String) : String :=
       ((o.probes.zip exp).filterMap fun (p, e) =>
         if p.startsWith (prefixOf e) then none else some s!"probe {e.tag}: got {(p.splitOn ":cur=").headD p} expected {prefixOf e}") ++
       (if o.sink == expSink then [] else [s!"sink received {o.sink} expected {expSink}"])
-    if problems.isEmpty then "ok" else "FAIL C15: " ++ ", ".intercalate problems
+    if problems.isEmpty then "ok" else "FAIL C15: " ++ " && ".intercalate problems
 
 /-! ### C09: scoped combinators leave the surrounding configuration intact -/
 
@@ -136,8 +137,9 @@ def ctxOracle (c : Case) (impl : String) : String :=
 def probeView (p : String) : String × String × String × String :=
   let fs := p.splitOn ":"
   let tag := fs.headD ""
-  if fs.getD 1 "" == "sent" then (tag, "sent", fs.getD 2 "", flagOfState (fs.getD 3 "") "f")
-  else (tag, "back", fs.getD 3 "", flagOfState (fs.getD 4 "") "f")
+  let trailOf := fun (e : String) => (e.splitOn "]").headD ""
+  if fs.getD 1 "" == "sent" then (tag, "sent", trailOf (fs.getD 2 ""), flagOfState (fs.getD 3 "") "f")
+  else (tag, "back", trailOf (fs.getD 3 ""), flagOfState (fs.getD 4 "") "f")
 
 def scopedOracle (c : Case) (impl : String) : String :=
   match parseObs impl with
@@ -192,7 +194,7 @@ def bracketOracle (c : Case) (impl : String) : String :=
            else [s!"reported index is not {kind}"])
         else if res.startsWith "err:E[]bracket" then [s!"properly nested brackets rejected: {res}"] else []
       let ps := p1 ++ p2
-      if ps.isEmpty then "ok" else "FAIL C10: " ++ ", ".intercalate ps
+      if ps.isEmpty then "ok" else "FAIL C10: " ++ " && ".intercalate ps
     | r =>
       let expected : List String := match r with
         | .noneFound none => ["bracket{none=" ++ GWire.dotSpan ⟨startPos, startPos⟩ ++ "}"]
@@ -271,9 +273,178 @@ def recoverOracle (c : Case) (impl : String) : String :=
     let (ps, nsink, _) := recoverWalk c v inner r o.results (initialPState c) 0 false
     if ps.contains "?" then "SKIP reference evaluator out of fuel" else
     let ps := ps ++ (if c.sink && o.sink.length != nsink then [s!"{o.sink.length} errors reported, expected exactly {nsink}"] else [])
-    if ps.isEmpty then "ok" else "FAIL C12: " ++ ", ".intercalate ps
+    if ps.isEmpty then "ok" else "FAIL C12: " ++ " && ".intercalate ps
   | .recover .., none => "FAIL C12: " ++ impl
   | _, _ => "SKIP not a top-level recover"
+
+/-! ### C11: delimited lists parse segment by segment -/
+
+/-- split a token list at separators -/
+def splitAtSep (sep : Nat) : List (Spec.RawTok Tok) → List (List (Spec.RawTok Tok))
+  | [] => [[]]
+  | r :: rest =>
+    match splitAtSep sep rest with
+    | seg :: segs => if r.tok.kind == sep then [] :: seg :: segs else (r :: seg) :: segs
+    | [] => [[r]]
+
+def listOracle (c : Case) (impl : String) : String :=
+  match c.g, parseObs impl with
+  | .list v _ lo hi item sep abort, some o =>
+    if !Spec.supported item then "SKIP item parser outside the PEG family" else
+    let lo := if v % 2 == 0 then 0 else lo
+    let hi : Option Nat := if v % 2 == 0 then none else hi
+    if hi == some 0 then "SKIP upper bound 0" else
+    let s0 := initialPState c
+    let view := s0.view
+    let body := view.takeWhile (fun r => !abort.contains r.tok.kind)
+    let segsAll := splitAtSep sep body
+    let segsAll := if (segsAll.getLast?.map (·.isEmpty)).getD false then segsAll.dropLast else segsAll
+    let segs := match hi with
+      | some h => segsAll.take h
+      | none => segsAll
+    -- the upper bound stops the list right after the `h`-th segment (a following separator is left)
+    let stoppedEarly : Bool := match hi with
+      | some h => decide (segs.length ≥ h)
+      | none => false
+    -- evaluate the item parser on each segment in isolation
+    let evalSeg := fun (seg : List (Spec.RawTok Tok)) =>
+      match Spec.peg c.text 4000 item ⟨seg, .eot, c.filter⟩ with
+      | .ok val s1 => if s1.view.isEmpty then some val else none
+      | _ => none
+    let entries := segs.map evalSeg
+    let showEntry := fun (e : Option Val) =>
+      match e with
+      | some val => if v < 2 then "S(" ++ GWire.showVal val ++ ")" else GWire.showVal val
+      | none => if v < 2 then "N" else "D"
+    let expVal := "L[" ++ ",".intercalate (entries.map showEntry) ++ "]"
+    let nbad := (entries.filter (·.isNone)).length
+    let tooFew := entries.length < lo
+    -- where the returned lexer must continue
+    let consumedToks := if stoppedEarly then
+        (segs.map (·.length)).foldl (· + ·) 0 + (segs.length - 1)
+      else body.length
+    let expRest := viewFrom view consumedToks
+    let res := o.results.headD ""
+    -- F21: a bad last segment that runs to the end of the stream (no separator / abort token after it)
+    let lastBadAtEnd := segs.length == segsAll.length && body.length == view.length &&
+      (match entries.getLast? with | some none => true | _ => false) &&
+      !(match body.getLast? with | some r => r.tok.kind == sep | none => true)
+    if c.sink then
+      let problems :=
+        (match okParts res with
+         | some (iv, _, rest) =>
+           (if normalizeSp iv == normalizeSp expVal then [] else [s!"entries {iv} expected {expVal}"]) ++
+           (if rest == expRest then [] else [s!"returned lexer continues at {rest}, expected {expRest}"])
+         | none => [s!"with a sink the list must succeed, got {(res.splitOn ":cur=").headD res}"]) ++
+        (if o.sink.length == nbad + (if tooFew then 1 else 0) then []
+         else [s!"{o.sink.length} errors reported, expected {nbad}" ++ (if tooFew then " + 1 count error" else "")])
+      if problems.isEmpty then "ok"
+      else (if lastBadAtEnd then "FAIL C11: F21-bad-last-segment-without-abort-token " else "FAIL C11: ") ++ " && ".intercalate problems
+    else
+      if nbad == 0 && !tooFew then
+        match okParts res with
+        | some (iv, _, rest) =>
+          if normalizeSp iv == normalizeSp expVal && rest == expRest then "ok"
+          else s!"FAIL C11: got {iv} then {rest}, expected {expVal} then {expRest}"
+        | none => s!"FAIL C11: all segments are good but the list returned {(res.splitOn ":cur=").headD res}"
+      else if res.startsWith "err:" then
+        (if nbad == 0 && !res.startsWith "err:E[]count" then "FAIL C11: expected the count error, got " ++ res else "ok")
+      else s!"FAIL C11: without a sink a bad segment (or too few entries) must fail the list, got {(res.splitOn ":cur=").headD res}"
+  | .list .., none => "FAIL C11: " ++ impl
+  | _, _ => "SKIP not a top-level list"
+
+/-! ### C08: error collection never changes the meaning of valid input -/
+
+def cursorOf (res : String) : String := (((res.splitOn ":cur=").getD 1 "").splitOn ";").headD ""
+
+def twiceOracle (impl : String) : String :=
+  match impl.splitOn "#" with
+  | [a, b] =>
+    match parseObs a, parseObs b with
+    | some oa, some ob =>
+      let ra := oa.results.headD ""
+      let rb := ob.results.headD ""
+      let p1 := if ra.startsWith "ok:" then
+          (if rb.startsWith "ok:" && ((ra.splitOn ":cur=").headD "") == ((rb.splitOn ":cur=").headD "") &&
+              cursorOf ra == cursorOf rb && ob.sink.isEmpty then []
+           else [s!"(a) sink-less parse succeeds with {(ra.splitOn ":cur=").headD ra} at {cursorOf ra}; with a sink: {(rb.splitOn ":cur=").headD rb} at {cursorOf rb}, sink {ob.sink}"])
+        else []
+      let p2 := if rb.startsWith "ok:" && ob.sink.isEmpty then
+          (if ra == rb then [] else [s!"(b) sink-enabled success reported nothing but differs from the sink-less result {(ra.splitOn ":cur=").headD ra}"])
+        else []
+      let p3 := if ra.startsWith "err:" then
+          let e := (ra.drop 4).toString
+          (if rb == ra || ob.sink.head? == some e then []
+           else [s!"(c) sink-less parse fails with {e}; with a sink the result is {(rb.splitOn ":cur=").headD rb} and the first diagnostic {ob.sink.head?}"])
+        else []
+      let ps := p1 ++ p2 ++ p3
+      if ps.isEmpty then "ok" else "FAIL C08: " ++ " && ".intercalate ps
+    | _, _ => if a == "panic" || b == "panic" || a == "timeout" || b == "timeout" then "ok" else "FAIL C08: unparsable observation"
+  | _ => "FAIL C08: unparsable observation"
+
+/-! ### C13: errors identify the offending token and stay inside the source -/
+
+def parseDotSpan (s : String) : Option Span :=
+  match (s.splitOn ".").map nat! with
+  | [a, b, c, d, e, f] => some ⟨⟨a, b, c⟩, ⟨d, e, f⟩⟩
+  | _ => none
+
+def fieldOf (body : String) (key : String) : String :=
+  (((body.splitOn (key ++ "=")).getD 1 "").splitOn ";").headD "" |>.replace "}" ""
+
+def spanOK (c : Case) (sp : Span) : Bool :=
+  Spec.isCanon c.m c.text sp.s && Spec.isCanon c.m c.text sp.e && sp.s.byte ≤ sp.e.byte
+
+/-- checks on one rendered error `E[..]kind{..}` -/
+def errorProblems (c : Case) (e : String) : List String :=
+  let raw := (rawOf c).1
+  let body := ((e.splitOn "]").drop 1 |> "]".intercalate)
+  let spansIn := fun (keys : List String) => keys.filterMap fun k =>
+    let f := fieldOf body k
+    if f.isEmpty then none else
+      (f.splitOn "/").foldl (fun acc x => match acc, parseDotSpan x with
+        | some l, some sp => some (sp :: l)
+        | _, _ => none) (some [])
+  let allSpans := (spansIn ["es", "ts", "none", "unclosed", "unopened", "mismatch"]).foldl (· ++ ·) []
+  let p0 := if allSpans.all (spanOK c) then [] else [s!"a span of {e} is not a canonical in-bounds span with start <= end"]
+  let p1 := if body.startsWith "unexp{" then
+      match parseDotSpan (fieldOf body "es"), parseDotSpan (fieldOf body "ts") with
+      | some es, some ts =>
+        let found := fieldOf body "found"
+        if found == "eot" then
+          -- end of text only when no token remains: nothing the initial filter keeps starts at or after ts.e
+          (if Spec.changesFilter c.g then [] else
+            if raw.any (fun r => r.start.byte ≥ ts.e.byte && Spec.keeps c.filter r.tok) then
+              [s!"{e} reports end of text although a token remains"] else [])
+        else
+          match found.splitOn "." with
+          | [k, tg] =>
+            let tokOK := raw.any fun r => r.tok.kind == nat! k && r.start == ts.s && r.stop == ts.e &&
+              (!c.cfg.stateful || r.tok.tag == nat! tg)
+            (if tokOK then [] else [s!"{e}: the token span is not the span of the found token"]) ++
+            (if es.e.byte ≤ ts.s.byte then [] else [s!"{e}: the parse-so-far span ends after the found token begins"])
+          | _ => []
+      | _, _ => [s!"unparsable spans in {e}"]
+    else []
+  p0 ++ p1
+
+def errorsOracle (c : Case) (impl : String) : String :=
+  match parseObs impl with
+  | none => if impl == "panic" || impl == "timeout" then "ok" else "FAIL C13: unparsable observation"
+  | some o =>
+    let errs := (o.results.filterMap fun r => if r.startsWith "err:" then some (r.drop 4).toString else none) ++ o.sink
+    let ps := (errs.map (errorProblems c)).foldl (· ++ ·) []
+    if ps.isEmpty then "ok" else "FAIL C13: " ++ " && ".intercalate ps
+
+def termOracle (impl : String) : String :=
+  if impl == "timeout" || (impl.splitOn "#").any (· == "timeout") then "FAIL C02: the parse did not terminate" else "ok"
+
+def nopanicOracle (impl : String) : String :=
+  if impl == "panic" || (impl.splitOn "#").any (· == "panic") then "FAIL C01: panic"
+  else if impl == "timeout" then "FAIL C02: the parse did not terminate"
+  else
+    let fp := ((impl.splitOn "fmtpanics=").getD 1 "0")
+    if fp.startsWith "0" then "ok" else "FAIL C01: formatting an error report or a lexer state panicked"
 
 def run (fam : String) (fields : List String) : String × String :=
   match parseCase fields.dropLast with
@@ -292,7 +463,18 @@ def run (fam : String) (fields : List String) : String × String :=
       else if fam == "scoped" then scopedOracle c impl
       else if fam == "bracket" then bracketOracle c impl
       else if fam == "recover" then recoverOracle c impl
+      else if fam == "list" then listOracle c impl
+      else if fam == "twice" then twiceOracle impl
+      else if fam == "errors" then errorsOracle c impl
+      else if fam == "term" then termOracle impl
+      else if fam == "nopanic" then nopanicOracle impl
       else "ok"
+    -- cross-cutting clauses, evaluated on every grammar-level case
+    let extra := [nopanicOracle impl] ++
+      (if fam == "errors" || fam == "twice" then [] else [errorsOracle c impl])
+    let fails := ([verdict] ++ extra).filterMap fun v =>
+      if v.startsWith "FAIL " then some (v.drop 5).toString else none
+    let verdict := if !fails.isEmpty then "FAIL " ++ "; ".intercalate fails else verdict
     (mo, verdict)
 
 end Tephra.Fam.Oracles
